@@ -22,7 +22,7 @@ META = {
     ],
     "required_classes": ["odo:R2", "odo:R3", "odo:SE2", "odo:SE3", "lm:SE2", "lm:SE3", "lm:R2", "lm:R3", "w_negative", "w_zero", "offset_rotated", "angle_seam"],
     "bounds": {
-        "quick": "odometry: SE3 24^3, SE2 33^3, Rn 3^3 triples; landmark: pose x offset x 3 points x 2 measurements",
+        "quick": "odometry: SE3 27^3, SE2 36^3, Rn 3^3 triples; landmark: pose x offset x 3 points x 2 measurements",
         "thorough": "odometry: SE3 (5 translations x 20 quaternions)^3, SE2 (5 x 25)^3; landmark: full thorough pose alphabets x offsets (thinned to 60) x 7 points x 2 measurements",
     },
 }
